@@ -2118,7 +2118,9 @@ impl<'a> Socket<'a> {
                         }
                     );
 
-                    if self.local_rx_dup_acks == 3 {
+                    // Fast retransmit resends the earliest unacknowledged data segment. When only
+                    // a FIN is in flight there is none, and the retransmission timer must stay armed.
+                    if self.local_rx_dup_acks == 3 && !self.tx_buffer.is_empty() {
                         self.timer.set_for_fast_retransmit();
                         net_debug!("started fast retransmit");
                     }
